@@ -134,6 +134,10 @@ def session_event(tid: str, cfg: Dict[str, Any], res: Dict[str, Any], kind: str,
             'seats_done': all(t['done'] for t in seats),
             'seats_exc': any(t['exc'] for t in seats),
             'clients_exc': any(c['exc'] for c in clients),
+            # a client program that returned normally was told "End of session" first
+            'clients_left_early': any(c.get('finished') and not c['exc'] and
+                                      (not c['s2c'] or c['s2c'][-1][1] != 'End of session')
+                                      for c in clients),
             'paired_ok': paired_ok}
     e: Dict[str, Any] = {'tid': tid, 'ev': 'session', 'kind': kind, 'boards': boards,
                          'teams': teams, 'teams_cps': [cps(t) for t in teams], 'decs': decs,
@@ -289,6 +293,13 @@ def normal_jobs(r, n: int, prefix: str, max_boards: int = 3) -> List[tuple]:
         jobs.append((f'{prefix}twin{tw}', {'boards': boards, 'seed': r.randrange(1 << 30),
                                            'styles': styles, 'vary': False,
                                            'policy_spec': ('fifo',)}, 'normal', None))
+    # the four shapes of a redoubled auction (by the bidder himself / by his partner,
+    # directly over the double / after two passes), and a double after two passes
+    for j, sc in enumerate([[0, 36, 35, 35, 37, 35, 35, 35], [0, 35, 35, 36, 37, 35, 35, 35],
+                            [0, 36, 37, 35, 35, 35], [0, 35, 35, 36, 35, 35, 37, 35, 35, 35]]):
+        jobs.append((f'{prefix}rdbl{j}', {'boards': rand_boards(r, 2), 'seed': r.randrange(1 << 30),
+                                          'styles': [{'script': sc}] * 4, 'vary': j % 2 == 0,
+                                          'policy_spec': POLICIES[j % len(POLICIES)]}, 'normal', None))
     # a board list in which a board is repeated (value-equal entries, the last included)
     bs = rand_boards(r, 2)
     jobs.append((f'{prefix}again', {'boards': [bs[0], bs[1], bs[0]], 'seed': r.randrange(1 << 30),
